@@ -8,8 +8,9 @@ REF = {0: "RefT0", 1: "RefT1", 2: "RefT2", 3: "RefT3"}
 
 
 def shamir_laws(wd, rep, q, nmax, slack=0, timeout=1500):
-    c = vlib.cfg({"Q": q, "NMax": nmax, "Slack": slack}, init="Init", next_="Next",
-                 invariants=["AnyTplus1Reconstructs", "SignShareSum", "TSharesHideKey", "RefreshKeepsKey", "MixedEpochsMiss",
+    # (a cfg file cannot hold a negative number: the value -1 is an operator of the module)
+    c = vlib.cfg({"Q": q, "NMax": nmax, "Slack": slack if slack >= 0 else "<- SlackMinus1"}, init="Init", next_="Next",
+                 invariants=["AnyTplus1Reconstructs", "SignShareSum", "TSharesHideKey", "DegreeExactlyT", "RefreshKeepsKey", "MixedEpochsMiss",
                              "DeriveShiftsKey", "NegateConsistent"])
     return vlib.tlc(wd, "ShamirLaws", c, timeout=timeout)
 
